@@ -295,6 +295,16 @@ def rule_user_inputs(ctx):
         nm_ = strip(asg[0]["r"])["path"]
         copy_at = idx(lambda n_: n_["k"] == "Local" and n_["pat"].get("name") == nm_)
     ctx.check(R, "FileStack::new/user-inputs-copy-of-initial-stack", bool(oku) and 0 <= i_files < copy_at <= i_ui, "add_files at statement %d, copy taken at %d, assigned at %d" % (i_files, copy_at, i_ui), site(INC, nw))
+    # library files are never queued for analysis by themselves: only add_files / add_include / include_library push
+    pushers = sorted({f_["name"] for _q, f_ in fns_in_file(INC) for p_ in method_calls(f_["body"], "push") if render(strip(p_["recv"])).replace(" ", "") == "self.stack"})
+    allowed_q = {"add_files", "add_include", "include_library"}
+    for extra_ in [x for x in pushers if x not in allowed_q]:
+        # a private helper that only the allowed functions call is part of them
+        callers_ = {f_["name"] for _q, f_ in fns_in_file(INC) if any(True for _ in method_calls(f_["body"], extra_)) or any(c_["k"] == "Call" and c_["func"]["k"] == "Path" and last(c_["func"]["path"]) == extra_ for c_ in walk(f_["body"]))}
+        hf = [f_ for _q, f_ in fns_in_file(INC) if f_["name"] == extra_]
+        if hf and hf[0].get("vis") != "pub" and callers_ and callers_ <= allowed_q:
+            allowed_q = allowed_q | {extra_}
+    ctx.check(R, "FileStack/who-queues-files", set(pushers) <= allowed_q and "add_files" in pushers, "functions pushing onto the file stack: %s (a library pushed by add_libraries would be analysed, and reported, as if the user had named it)" % pushers, INC)
     ctx.check(R, "FileStack::new/libraries-before-files", 0 <= i_lib < i_files, "add_libraries at statement %d, add_files at %d" % (i_lib, i_files), site(INC, nw))
     iu = find_fn(INC, "is_user_input", "FileStack")
     if iu is not None:
